@@ -71,11 +71,32 @@ class Ctx:
         self.cfg = cfgname
         self.tier = tier
         self.features = set(fb.features)
-        self.wrap = Engine(fb, inline=wrapper_policy(fb))
+        # a crate-private function that did not exist on the pinned tree (not in the signature
+        # table, not a renamed one) and is pure - no loop, no `&mut` parameter - is a helper that a
+        # refactoring extracted: every view looks through it.  Functions of the pinned tree keep
+        # their identity (rules name them).
+        import facts as _facts
+        _facts.rename_aliases(fb.d)
+        known = set((_facts._ANCHORS or {}).get("functions", {}))
+        pp = pure_policy(fb)
+        wp0 = wrapper_policy(fb)
+
+        def fresh_pure(path, depth):
+            if not known or path in known or "::{closure" in path or "#" in path:
+                return False
+            b = fb.body(path)
+            if b is None or b.kind not in ("Fn", "AssocFn") or b.d.get("instance_of") in known or (b.reachable() and b.is_pub()) or b.d.get("impl_trait"):
+                return False
+            return depth < 4 and pp(path, depth)
+
+        def wp(path, depth):
+            return wp0(path, depth) or fresh_pure(path, depth)
+
+        self.fresh_pure = fresh_pure
+        self.wrap = Engine(fb, inline=wp)
         self.deep = Engine(fb, inline=inline_all)
         self.flat = Engine(fb, inline=None)
-        self.pure = Engine(fb, inline=pure_policy(fb))
-        wp = wrapper_policy(fb)
+        self.pure = Engine(fb, inline=pp)
         # API view: additionally inline private helpers that have a single caller in their own
         # module (a function split in two by a refactoring is still one API operation)
         callers = {}
@@ -88,6 +109,8 @@ class Ctx:
         def helper(path, depth):
             if wp(path, depth):
                 return True
+            if known and path in known:
+                return False        # a function of the pinned tree keeps its identity
             b = fb.body(path)
             if b is None or b.kind not in ("Fn", "AssocFn") or b.is_pub() or "Crate" in b.d.get("vis", "") and False:
                 return False
